@@ -27,7 +27,28 @@ const EXTRA: &[&str] = &[";", "1.5", "7", "-1", "4294967296", "99999999999999999
     // tokens that begin with a non-ASCII character of Unicode's numeric classes (2- and 3-byte), alone, followed
     // by ASCII digits, and followed by a multi-byte white-space character (U+3000)
     "\u{b2}", "\u{663}7", "\u{2460}", "\u{bd}x", "\u{ff11}\u{3000}x",
+    // numbers at and beyond the limits of a 96-bit decimal (28-29 digits, 28 decimals), exponent spellings beyond it
+    "7922816251426433759354395034", "79228162514264337593543950335", "-79228162514264337593543950335", "0.0000000000000000000000000001", "1e29", "1e400",
 ];
+
+/// Texts with a fault on a line longer than 200 bytes that is full of multi-byte characters (error reports quote
+/// the current line): template x filler character (2, 3, 4 bytes) x 0..=3 ASCII pad bytes (every alignment).
+const LONG_TEMPLATES: usize = 7;
+const LONG_CHARS: [&str; 3] = ["\u{e9}", "\u{540d}", "\u{1f600}"];
+fn long_line_text(t: usize, c: usize, pad: usize) -> Option<String> {
+    let ch = LONG_CHARS.get(c)?;
+    let fill = format!("{}{}", "a".repeat(pad), ch.repeat(100));
+    Some(match t {
+        0 => format!("BADKEY {fill}\n"),
+        1 => format!("VERSION 5.8 ;\nMACRO m\n  SIZE 1 BY ; CLASS CORE ; # {fill}\nEND m\n"),
+        2 => format!("VERSION 5.8 ;\nMACRO {fill} BADTOKEN ;\n"),
+        3 => format!("VERSION 5.8 ;\nBEGINEXT \"t\" {fill} {fill} w\n"),
+        4 => format!("VERSION 5.8 ;\nPROPERTYDEFINITIONS MACRO {fill} BADTYPE ;\n"),
+        5 => format!("VERSION 5.8 ;\nDIVIDERCHAR \"{fill}\" ;\n"),
+        6 => format!("VERSION 5.8 ;\nMACRO m\n  PIN {fill} DIRECTION SIDEWAYS ; # {fill}\n"),
+        _ => return None,
+    })
+}
 /// 2-, 3-, 4-byte characters, a combining mark, U+00A0 and U+2028; a 2-byte numeric (superscript two), a 3-byte
 /// digit (fullwidth one) and the 3-byte white-space character U+3000
 const NONASCII: &[&str] = &["é", "€", "😀", "e\u{301}", "\u{a0}", "\u{2028}", "\u{b2}", "\u{ff11}", "\u{3000}"];
@@ -259,6 +280,7 @@ pub fn text_of(key: &str) -> Option<String> {
             s.push('\n');
             Some(s)
         }
+        ["l", t, c, pad] => long_line_text(t.parse().ok()?, c.parse().ok()?, pad.parse().ok()?),
         // as "x", the text ending with the last character of the last token (no final new-line)
         ["y", c, seq] => {
             let mut s = text_of(&format!("x:{c}:{seq}"))?;
@@ -410,7 +432,7 @@ impl Driver for C11 {
         let nchar: usize = bs.iter().map(|b| b.text.chars().count()).sum();
         Describe {
             rule: format!(
-                "{} base texts ({} tokens, {} characters): the default rendering of every generator focus plus variants (versions, no END LIBRARY, mixed case, joined properties, all nine geometries), every raw string literal of lef21/src/tests.rs and read.rs, macro.lef, lib1.yaml, lib2.yaml, the empty file. Faults: every character-boundary prefix; at every token (comments and string literals included): deleted, duplicated, swapped with the next, replaced by each of {} tokens ({} keywords / enumeration words, ';', numbers, a name, a string literal, the empty string literal, an unterminated string, '-', '.', 1e9, -inf, a comment, five tokens starting with a non-ASCII numeric character); {} non-ASCII strings (2-, 3-, 4-byte, combining, U+00A0, U+2028, superscript two, fullwidth one, U+3000) inserted inside the token, as a token of its own, glued before / after it and in a comment before it{}; after each of {} parser contexts every token sequence of length <= {} over the same {} tokens, ending with a new-line and (length <= 2) ending with the last token's last character. distinct = distinct text (sequences are distinct by construction); non-trivial = non-blank text.",
+                "{} base texts ({} tokens, {} characters): the default rendering of every generator focus plus variants (versions, no END LIBRARY, mixed case, joined properties, all nine geometries), every raw string literal of lef21/src/tests.rs and read.rs, macro.lef, lib1.yaml, lib2.yaml, the empty file. Faults: every character-boundary prefix; at every token (comments and string literals included): deleted, duplicated, swapped with the next, replaced by each of {} tokens ({} keywords / enumeration words, ';', numbers, a name, a string literal, the empty string literal, an unterminated string, '-', '.', 1e9, -inf, a comment, five tokens starting with a non-ASCII numeric character, six numbers at and beyond the limits of a 96-bit decimal); 7 faulty texts whose faulty line is longer than 200 bytes and filled with 2- / 3- / 4-byte characters at every byte alignment; {} non-ASCII strings (2-, 3-, 4-byte, combining, U+00A0, U+2028, superscript two, fullwidth one, U+3000) inserted inside the token, as a token of its own, glued before / after it and in a comment before it{}; after each of {} parser contexts every token sequence of length <= {} over the same {} tokens, ending with a new-line and (length <= 2) ending with the last token's last character. distinct = distinct text (sequences are distinct by construction); non-trivial = non-blank text.",
                 bs.len(), ntok, nchar, repl().len(), lr::KEYWORDS.len(), NONASCII.len(),
                 format!("; on the {} smallest bases with at least 8 tokens every pair of faults (reduced operation set: delete, duplicate, swap, 25 replacements) at two non-adjacent tokens", tier.pick(6, 16)),
                 CONTEXTS.len(), tier.pick(2, 3), repl().len()
@@ -439,6 +461,7 @@ impl Driver for C11 {
             }
             v.push(format!("U:{b}"));
         }
+        v.push("L".into());
         for c in 0..CONTEXTS.len() {
             for a in 0..repl().len() {
                 v.push(format!("X:{c}:{a}"));
@@ -495,6 +518,16 @@ impl Driver for C11 {
                     });
                 }
                 cx.tag("fault:token");
+            }
+            ["L"] => {
+                for t in 0..LONG_TEMPLATES {
+                    for c in 0..LONG_CHARS.len() {
+                        for pad in 0..4 {
+                            self.run_key(&format!("l:{t}:{c}:{pad}"), true, cx);
+                        }
+                    }
+                }
+                cx.tag("fault:long-non-ascii-line");
             }
             ["U", b] => {
                 let b = num(b);
@@ -574,7 +607,7 @@ impl Driver for C11 {
         }
     }
     fn render_case(&self, _tier: Tier, key: &str) -> Value {
-        let base = key.split(':').nth(1).and_then(|b| b.parse::<usize>().ok()).filter(|_| !key.starts_with("x:") && !key.starts_with("y:"));
+        let base = key.split(':').nth(1).and_then(|b| b.parse::<usize>().ok()).filter(|_| !key.starts_with("x:") && !key.starts_with("y:") && !key.starts_with("l:"));
         json!({
             "key": key,
             "base": base.and_then(|b| bases().get(b)).map(|b| b.name.clone()),
@@ -587,7 +620,7 @@ impl Driver for C11 {
             return require_outcomes(stats, &["err", "ok/reopen-ok"]);
         }
         let mut tags = vec![
-            "fault:prefix", "fault:token", "fault:nonascii", "fault:sequence", "token:word", "token:string", "token:semicolon",
+            "fault:prefix", "fault:token", "fault:nonascii", "fault:sequence", "fault:long-non-ascii-line", "token:word", "token:string", "token:semicolon",
             "token:comment", "nonascii:in-string", "nonascii:in-comment", "nonascii:in-word",
         ];
         tags.push("fault:pair");
